@@ -432,9 +432,12 @@ def r17c(model, ctx):
               f"{unparse(s[0].call) if s else '-'}", f"{CDC}:{fn.lineno}")
     ok = len(em.assigns) == 3
     ctx.check(ok, R, "PulseSynchronizer:no-other-logic", "no other assignments", f"unexpected assignments: {em.assigns}", f"{CDC}:{fn.lineno}")
-    fi = model.func(f"{CDC}::PulseSynchronizer.__init__")
-    t = unparse(fi)
-    ok = "_check_stages(stages)" in t and "self._i_domain = i_domain" in t and "self._o_domain = o_domain" in t and "self._stages = stages" in t
+    fi, stored = _stored(model, f"{CDC}::PulseSynchronizer.__init__", exclude=("_check_stages",))
+    need(stored, "PulseSynchronizer.__init__: no completing path")
+    ok = True
+    for p, st, calls in stored:
+        ok = ok and "_check_stages(stages)" in calls and st.get("_i_domain") == "i_domain" and st.get("_o_domain") == "o_domain" and \
+            st.get("_stages") == "stages"
     ctx.check(ok, R, "PulseSynchronizer.__init__", "domains and stages stored unchanged", "PulseSynchronizer.__init__ must store its "
               "domains and stage count unchanged", f"{CDC}:{fi.lineno}")
 
